@@ -56,6 +56,11 @@ cbv1 = Function("cbv1", Ref, Ref, Ref)                 # value of f(a) for value
 flt = Function("flt", Ref, RSeq, RSeq)                 # List.filter (keep f): the elements w with f None or f(w) true
 cls_has = Function("cls_has", Cls, Str, Bool)          # the class provides the attribute (method, property, class attribute)
 cls_get = Function("cls_get", Ref, Str, Ref)           # value of a class-provided attribute on an instance
+SSeq = SeqSort(StringSort())
+cbs1 = Function("cbs1", Ref, Ref, Str)                 # str() of the value a rendering callback returns for an object
+py_repr = Function("py_repr", Ref, Str)                # repr(obj)
+sortedby = Function("sortedby", Ref, RSeq, RSeq)       # sorted(seq, key=f): a key-ordered stable permutation (A9), opaque
+sjoin = Function("sjoin", Str, SSeq, Str)              # sep.join(list of strings)
 int_unbox = Function("int_unbox", Ref, Int)             # the int behind an opaque attribute value
 hexid = Function("hexid", Ref, Ref)                    # hex(id(obj)) as an opaque label value
 ISeq = SeqSort(IntSort())
@@ -326,6 +331,22 @@ def Flt(f, s):
     if _is_ite(s):
         return ite(s.arg(0), Flt(f, s.arg(1)), Flt(f, s.arg(2)))
     return flt(f, s)
+
+
+def SJoin(sep, ss):
+    """sep.join(ss) by snoc recursion: join [] = "", join (s ++ [x]) = x if s is empty else join s ++ sep ++ x"""
+    k = _kind(ss)
+    if k == z3.Z3_OP_SEQ_EMPTY:
+        return z3.StringVal("")
+    if k == z3.Z3_OP_SEQ_UNIT:
+        return ss.arg(0)
+    if k == z3.Z3_OP_SEQ_CONCAT:
+        parts = _flat(ss)
+        if _kind(parts[-1]) == z3.Z3_OP_SEQ_UNIT:
+            head = parts[0] if len(parts) == 2 else Concat(*parts[:-1])
+            x = parts[-1].arg(0)
+            return ite(Length(head) == 0, x, Concat(SJoin(sep, head), sep, x))
+    return sjoin(sep, ss)
 
 
 def Dedup(s):
